@@ -340,7 +340,7 @@ def play(name, calls, seed):
         pre = last
         rec.invs, rec.user_obj = [], x
         np.random.seed((seed * 1009 + n_acc) % (2 ** 31))
-        exc, msg, where = None, "", None
+        exc, msg, where, frames = None, "", None, []
         try:
             if DETS[name]["fam"] == "sy":
                 det.update(yt, yp)
@@ -350,12 +350,14 @@ def play(name, calls, seed):
                 det.update(x)
         except Exception as e:
             exc, msg = type(e).__name__, str(e)[:120]
-            fr = traceback.extract_tb(e.__traceback__)[-1]
+            tb = traceback.extract_tb(e.__traceback__)
+            fr = tb[-1]
             where = [os.path.basename(fr.filename), fr.name]
+            frames = [[os.path.basename(f.filename), f.name] for f in tb]
         if exc is None:
             n_acc += 1
         last = snapshot(det)
-        out.append({"acc": exc is None, "exc": exc, "msg": msg, "where": where, "invs": rec.invs if rec.ok else None,
+        out.append({"acc": exc is None, "exc": exc, "msg": msg, "where": where, "frames": frames, "invs": rec.invs if rec.ok else None,
                     "attrs": vattrs(det), "pre": pre, "snap": last,
 
                     "op": c.get("op", "update"), "x": None if x is None else desc(x),
@@ -560,11 +562,19 @@ def classify(case, obs):
             continue
         ok, fl = sp[i]
         r = recs[i]
-        invs = r["invs"] or []
-        user_ret = any(u and o[0] == "ret" for u, d, o in invs)
-        user_raise = any(u and o[0] == "raise" for u, d, o in invs)
-        proxy_raise = any((not u) and o[0] == "raise" and o[1] == "ValueError" and d is not None
-                          and ((d[0] == "a2" and d[1] <= 1) or (d[0] == "df" and d[2] <= 1)) for u, d, o in invs)
+        if r["invs"] is not None:
+            invs = r["invs"]
+            user_ret = any(u and o[0] == "ret" for u, d, o in invs)
+            user_raise = any(u and o[0] == "raise" for u, d, o in invs)
+            proxy_raise = any((not u) and o[0] == "raise" and o[1] == "ValueError" and d is not None
+                              and ((d[0] == "a2" and d[1] <= 1) or (d[0] == "df" and d[2] <= 1)) for u, d, o in invs)
+        else:
+            # the validator could not be wrapped under its private name: the same three facts from the traceback
+            # (name-independent): an internal batch is validated below reset() of histogram_density_method.py
+            in_reset = any(f == ["histogram_density_method.py", "reset"] for f in r.get("frames", []))
+            user_ret = r["acc"] or passed_validation(name, r) or in_reset
+            user_raise = refused_by_validation(r) and not in_reset
+            proxy_raise = r["exc"] == "ValueError" and in_reset and refused_by_validation(r)
         if not ok and fl.get("s12") and (r["acc"] or user_ret) and case["mode"] == "inject" \
                 and calls is not case["calls"] and i == case["inj"]["pos"]:
             found.append("S12-batch")
@@ -592,8 +602,8 @@ def inv_term(inv):
 
 
 def call_term(name, r):
-    if r["invs"] is None:      # _validate_X could not be wrapped: assume the user's X is the only invocation
-        invs = [] if r["x"] is None else [f"(true, {desc_term(r['x'])}, None)"]
+    if r["invs"] is None:      # the validator could not be wrapped under its private name: history not model-checked
+        return None
     else:
         if any(d is None for _, d, _ in r["invs"]):
             return None
